@@ -5,6 +5,7 @@ package sm2
 import (
 	"bytes"
 	"fmt"
+	"io"
 	"math/big"
 	"strings"
 	"testing"
@@ -259,6 +260,53 @@ func TestVerifC02(t *testing.T) {
 		}
 	})
 
+	// the source is the process-wide crypto/rand.Reader OBJECT (replaced by a scripted source for the call): same
+	// standard values, same 32-byte units, same rejection rules as for any other source
+	for i := 0; i < hk.N(24, 120); i++ {
+		d := keys[(i*7)%len(keys)]
+		e := rng.Bytes(32)
+		stream := rng.Bytes(32 * 6)
+		switch i % 4 {
+		case 1:
+			copy(stream, make([]byte, 32)) // k = 0 first
+		case 2:
+			copy(stream, ref.B32(nI)) // k = n first
+		case 3:
+			for j := 0; j < 9; j++ {
+				stream[j] = 0 // a nonce with leading zero bytes
+			}
+		}
+		model := ref.SM2Sign(d, e, stream)
+		if model.R == nil {
+			continue
+		}
+		rd := newScript(stream)
+		var rr, ss []byte
+		var err error
+		withGlobalRand(rd, func(src io.Reader) { rr, ss, err = SignHashed(src, ref.B32(d), e) })
+		if err != nil || !bytes.Equal(rr, ref.B32(model.R)) || !bytes.Equal(ss, ref.B32(model.S)) || rd.off != model.Consumed || rd.crossesUnit() {
+			r.Violation("signature-differs-from-standard:source=global-crypto/rand.Reader", hk.D{"priv": hk.Hex(ref.B32(d)), "e": hk.Hex(e), "stream": hk.Hex(stream[:model.Consumed]), "got_r": hexOrNil(rr), "got_s": hexOrNil(ss),
+				"err": errStr(err), "consumed": rd.off, "model_consumed": model.Consumed, "reads": rd.events})
+		}
+		r.Eval("source=global-rand-reader,rejects=[" + strings.Join(model.Rejected, ",") + "]")
+	}
+	// 2^24 consecutive rejected candidates (k = 0) from a generated source, then an acceptable one
+	{
+		nrej := int64(1 << 24)
+		d := keys[5%len(keys)]
+		k := randScalar(rng)
+		e := rng.Bytes(32)
+		zr := &zeroRunReader{zeros: 32 * nrej, tail: append(ref.B32(k), rng.Bytes(64)...)}
+		r.Journal("SignHashed after %d rejected candidates (all zero)", nrej)
+		rr, ss, err := SignHashed(zr, ref.B32(d), e)
+		m := ref.SM2Sign(d, e, append(ref.B32(k), zr.tail...))
+		if m.R == nil || len(m.Rejected) != 0 {
+			r.Inconclusive("c02: very-long-run case: the candidate after the run is rejected by the model")
+		} else if err != nil || !bytes.Equal(rr, ref.B32(m.R)) || !bytes.Equal(ss, ref.B32(m.S)) || zr.read != 32*nrej+32 {
+			r.Violation("signature-wrong-after-very-long-rejection-run", hk.D{"rejected_candidates": nrej, "err": errStr(err), "r": hexOrNil(rr), "s": hexOrNil(ss), "bytes_read": zr.read})
+		}
+		r.Eval("rejects=[2^24 x k=0]")
+	}
 	// (c) keys outside [1,n-2] must be refused with an error and no signature
 	type badKey struct {
 		name string
